@@ -72,3 +72,12 @@ func (merr *MultiError) Empty() bool {
 
 	return len(merr.errs) == 0
 }
+
+// Reset removes all errors. Slices previously returned by Errors are not
+// affected.
+func (merr *MultiError) Reset() {
+	merr.mu.Lock()
+	defer merr.mu.Unlock()
+
+	merr.errs = nil
+}
